@@ -289,6 +289,12 @@ Switch(n, c) ==
      [] k = 8 -> [c EXCEPT !.A = 0]
      [] OTHER -> c
 
+\* must_if< Errors >::control (C05): c.mi = 1: a rule that has a message in Errors raises when it fails locally (also when
+\* its action vetoes); c.mi = 2: Errors::raise_on_failure< Rule > decides.  The failure hook is what raises, so only rules
+\* whose control is enabled are concerned.
+Rof(n, c) == c.mi > 0 /\ Visible(n, c) /\ (IF c.mi = 1 THEN Nodes[n].mihas = 1 ELSE Nodes[n].mirof = 1)
+MustIf(n, p, r, c) == IF r.k = "F" /\ Rof(n, c) THEN RX(n, p) ELSE r
+
 \* a node: its body, then its own action
 Den(n, p, c, d) ==
    IF d = 0 THEN RL
@@ -306,7 +312,7 @@ Den(n, p, c, d) ==
           [] lk = 3 ->
                 LET r == DenX(Lift(n), p, c, d - 1) IN
                 IF r.k = "T" /\ r.e - p > LimN(n) THEN RX(XCheck, r.e) ELSE r
-          [] OTHER -> LET c2 == Switch(n, c) IN WithAct(n, p, DenX(Lift(n), p, c2, d - 1), c2)
+          [] OTHER -> LET c2 == Switch(n, c) IN MustIf(n, p, WithAct(n, p, DenX(Lift(n), p, c2, d - 1), c2), c2)
 
 SeqK(ks, i, p, c, d) ==
    IF i > Len(ks) THEN RT(p)
